@@ -1169,7 +1169,7 @@ func (g *gen) lim() string {
 }
 
 func (g *gen) loweringTemplate() string {
-	k := g.pick("tmpl", 20)
+	k := g.pick("tmpl", 22)
 	g.feat(fmt.Sprintf("template-%d", k))
 	switch k {
 	case 0: // count fast paths
@@ -1340,6 +1340,30 @@ func (g *gen) loweringTemplate() string {
 			where = " where " + g.anchor(rapid.SampledFrom([]string{"a", "b"}).Draw(g.t, "t19wv"))
 		}
 		return "match " + rapid.SampledFrom([]string{"", "", "p = "}).Draw(g.t, "t19p") + pat + where + " return " + rapid.SampledFrom([]string{"a, b", "a", "count(*)", "distinct b", "a.name, b.name"}).Draw(g.t, "t19ret")
+	case 19: // UNWIND variables read by the root predicate of an expansion that follows another clause
+		lead := rapid.SampledFrom([]string{"match (q" + g.optKind("t20kq") + ") ", "match (q" + g.optKind("t20kq") + ") with q ", "match (q)-[:" + g.ek() + "]->() "}).Draw(g.t, "t20lead")
+		unwinds := "unwind [0, 1, 2] as x "
+		pred := "m.value = x"
+		if g.chance("t20two", 2, 3) {
+			unwinds += "unwind ['a', 'b', 'ab'] as y "
+			pred = rapid.SampledFrom([]string{"m.name = y", "m.name = y", "m.value = x and m.name = y", "m.name = y and t.value = x", "t.name = y"}).Draw(g.t, "t20pred")
+		}
+		if g.chance("t20three", 1, 4) {
+			unwinds += "unwind [true, false] as z "
+			pred += " and m.flag = z"
+		}
+		rng := rapid.SampledFrom([]string{"*1..", "*0..", "*", "*1..2", ""}).Draw(g.t, "t20r")
+		return lead + unwinds + "match (m" + g.optKind("t20km") + ")-[:" + g.ek() + rng + "]->(t" + g.optKind("t20kt") + ") where " + pred + " return " + rapid.SampledFrom([]string{"t, x", "t, q", "m, t, x", "count(*)", "distinct t"}).Draw(g.t, "t20ret")
+	case 20: // an expansion with a fixed suffix step and a predicate that relates the suffix node to a node the expansion carries
+		rel := rapid.SampledFrom([]string{"c.name = b.name", "not c.name = b.name", "c.value <> b.value", "not (c.value > b.value)", "not c.name = a.name", "c.value >= a.value", "not (c.flag = b.flag)", "not c.flag"}).Draw(g.t, "t21rel")
+		if g.chance("t21and", 1, 3) {
+			rel += " and " + g.anchor(rapid.SampledFrom([]string{"a", "c"}).Draw(g.t, "t21av"))
+		}
+		second := ""
+		if g.chance("t21two", 1, 4) {
+			second = "-[:" + g.eks() + "]->(d)"
+		}
+		return "match (a" + g.optKind("t21ka") + ")-[:" + g.ek() + rapid.SampledFrom([]string{"*1..", "*0..", "*", "*1..3"}).Draw(g.t, "t21r") + "]->(b)-[:" + g.eks() + "]->(c" + g.optKind("t21kc") + ")" + second + " where " + rel + " return " + rapid.SampledFrom([]string{"a", "a, c", "distinct a", "count(*)", "b, c"}).Draw(g.t, "t21ret")
 	default: // path functions, late path materialisation
 		return "match p = (a" + g.optKind("t13k") + ")-[:" + g.eks() + g.rng() + "]->(b) where " + g.anchor("a") + " return " + rapid.SampledFrom([]string{"nodes(p)", "relationships(p)", "size(relationships(p))", "b, size(nodes(p))", "p, a.name"}).Draw(g.t, "t13f")
 	}
